@@ -132,7 +132,7 @@ func (img *image) pristineCases(r *vk.Run, round, cfgIdx int) {
 		for k, v := range base {
 			js2[k] = v
 		}
-		r.Case(fmt.Sprintf("CTx true %d %d %s (Ok %s)", maxTxEntries, maxKeyLen, vk.Hex(img.txlog[t.off:]), txTerm(t.hdr, t.entries)),
+		r.Case(fmt.Sprintf("CTx %d %d %s (Ok %s) None None", maxTxEntries, maxKeyLen, vk.Hex(img.txlog[t.off:]), txTerm(t.hdr, t.entries)),
 			js2, "pristine/read", true)
 		if img.cfg.embedded {
 			var vals []string
@@ -155,13 +155,14 @@ func (img *image) pristineCases(r *vk.Run, round, cfgIdx int) {
 				for k, v := range base {
 					js4[k] = v
 				}
-				r.Case(img.valCase(img.txlog, img.vlogs, e, outcome{}, e.value), js4, "pristine/value", true)
+				r.Case(img.sessCase(img.txlog, img.vlogs, []sessOp{{e: *e, val: e.value}, {e: *e, val: e.value}}), js4, "pristine/value", true)
 			}
 		}
 	}
 }
 
-func (img *image) valCase(txlog []byte, vlogs [][]byte, e *entryInfo, o outcome, val []byte) string {
+// sessCase: the value reads made on one opened store, in order, as a Tie.C09 CSess term.
+func (img *image) sessCase(txlog []byte, vlogs [][]byte, ops []sessOp) string {
 	tl := []byte{}
 	var vl []string
 	if img.cfg.embedded {
@@ -171,12 +172,28 @@ func (img *image) valCase(txlog []byte, vlogs [][]byte, e *entryInfo, o outcome,
 			vl = append(vl, vk.Hex(v))
 		}
 	}
-	return fmt.Sprintf("CVal %d %d %s %s %d %d %s %s", maxValueLen, img.cfg.mode(), vk.Hex(tl), vk.List(vl), e.vLen, uint64(e.vOff), vk.Hex(e.hVal[:]),
-		resTerm(o, vk.Hex(val)))
+	var terms []string
+	for _, op := range ops {
+		if op.isExp {
+			var es, vs []string
+			for _, e := range op.es {
+				es = append(es, fmt.Sprintf("(%d, %d, %s)", e.vLen, uint64(e.vOff), vk.Hex(e.hVal[:])))
+			}
+			for _, v := range op.vals {
+				vs = append(vs, vk.Hex(v))
+			}
+			terms = append(terms, fmt.Sprintf("VExp %s %s", vk.List(es),
+				resTerm(op.o, fmt.Sprintf("(%s, %s)", vk.Bool(op.trunc), vk.List(vs)))))
+		} else {
+			terms = append(terms, fmt.Sprintf("VRead %d %d %s %s", op.e.vLen, uint64(op.e.vOff), vk.Hex(op.e.hVal[:]),
+				resTerm(op.o, vk.Hex(op.val))))
+		}
+	}
+	return fmt.Sprintf("CSess %d %d %s %s %s %s", maxValueLen, img.cfg.mode(), vk.Bool(img.cfg.vlogCache > 0), vk.Hex(tl), vk.List(vl), vk.List(terms))
 }
 
 // emit records the correspondence cases of one executed job and its direct findings.
-func (img *image) emit(r *vk.Run, round, cfgIdx int, j *job, res *jobResult) {
+func (img *image) emit(r *vk.Run, round, cfgIdx, jobIdx int, j *job, res *jobResult) {
 	for _, f := range res.findings {
 		r.Finding(f)
 	}
@@ -208,71 +225,57 @@ func (img *image) emit(r *vk.Run, round, cfgIdx int, j *job, res *jobResult) {
 		viol = viol || len(d) > 0
 		ok = txTerm(res.tx.hdr, res.tx.entries)
 	}
-	js["violation"] = viol
-	if !res.readTx.hung {
-		r.Case(fmt.Sprintf("CTx true %d %d %s %s", maxTxEntries, maxKeyLen, vk.Hex(stream), resTerm(res.readTx, ok)),
-			js, "ReadTx/"+fam+"/"+res.readTx.class(), true)
-	}
+	skipTerm, hdrTerm_ := "None", "None"
 	if res.didSkip && !res.readSkip.hung {
-		js := base("tx-skip")
-		js["go"] = res.readSkip.class()
-		js["violation"] = res.readSkip.panicked
-		ok := ""
+		js["go-skip"] = res.readSkip.class()
+		viol = viol || res.readSkip.panicked
+		oks := ""
 		if res.readSkip.ok() {
-			ok = txTerm(res.txSkip.hdr, res.txSkip.entries)
+			oks = txTerm(res.txSkip.hdr, res.txSkip.entries)
 		}
-		r.Case(fmt.Sprintf("CTx false %d %d %s %s", maxTxEntries, maxKeyLen, vk.Hex(stream), resTerm(res.readSkip, ok)),
-			js, "ReadTx(skip)/"+fam+"/"+res.readSkip.class(), true)
+		skipTerm = "(Some " + resTerm(res.readSkip, oks) + ")"
+		r.Stats["~ReadTx(skip)/"+res.readSkip.class()]++
 	}
 	if res.didHdr && !res.readHdr.hung {
-		js := base("hdr")
-		js["go"] = res.readHdr.class()
-		viol := res.readHdr.panicked
-		ok := ""
+		js["go-hdr"] = res.readHdr.class()
+		viol = viol || res.readHdr.panicked
+		okh := ""
 		if res.readHdr.ok() {
-			d := diffHdr(res.hdr, t.hdr)
-			viol = viol || len(d) > 0
-			ok = hdrTerm(res.hdr)
+			viol = viol || len(diffHdr(res.hdr, t.hdr)) > 0
+			okh = hdrTerm(res.hdr)
 		}
+		hdrTerm_ = "(Some " + resTerm(res.readHdr, okh) + ")"
+		r.Stats["~ReadTxHeader/"+res.readHdr.class()]++
+	}
+	js["violation"] = viol
+	// the (many) reads that simply fail are compared with the model for every other job only: the cost
+	// of a case is the parsing of its byte strings
+	r.Stats["~ReadTx/"+res.readTx.class()]++
+	if !res.readTx.hung && (res.readTx.class() != "error" || jobIdx%2 == 0) {
+		r.Case(fmt.Sprintf("CTx %d %d %s %s %s %s", maxTxEntries, maxKeyLen, vk.Hex(stream), resTerm(res.readTx, ok), skipTerm, hdrTerm_),
+			js, "ReadTx/"+fam+"/"+res.readTx.class(), true)
+	}
+	if img.cfg.compression == 0 && len(res.sess) > 0 {
+		js := base("session")
+		viol := false
+		classes := ""
+		for _, op := range res.sess {
+			viol = viol || op.viol
+			if op.isExp {
+				classes += "E" + op.o.class()[:1]
+			} else {
+				classes += "R" + op.o.class()[:1]
+			}
+		}
+		js["ops"] = classes
 		js["violation"] = viol
-		r.Case(fmt.Sprintf("CHdr %d %d %s %s", maxTxEntries, maxKeyLen, vk.Hex(stream), resTerm(res.readHdr, ok)),
-			js, "ReadTxHeader/"+fam+"/"+res.readHdr.class(), true)
-	}
-	if img.cfg.compression == 0 && res.didExp {
-		js := base("export")
-		js["go"] = res.export.class()
-		js["violation"] = res.export.panicked
-		var es, vs []string
-		for _, e := range res.expEs {
-			es = append(es, fmt.Sprintf("(%d, %d, %s)", e.vLen, uint64(e.vOff), vk.Hex(e.hVal[:])))
-		}
-		for _, v := range res.expVals {
-			vs = append(vs, vk.Hex(v))
-		}
-		tl := []byte{}
-		var vl []string
-		if img.cfg.embedded {
-			tl = txlog
-		} else {
-			for _, v := range vlogs {
-				vl = append(vl, vk.Hex(v))
+		r.Case(img.sessCase(txlog, vlogs, res.sess), js, fmt.Sprintf("ValueSession(%d reads)/%s", len(res.sess), fam), true)
+		for _, op := range res.sess {
+			if op.isExp {
+				r.Stats["~ExportTx/"+op.o.class()]++
+			} else {
+				r.Stats["~ReadValue/"+op.o.class()]++
 			}
-		}
-		r.Case(fmt.Sprintf("CExp %d %d %s %s %s %s", maxValueLen, img.cfg.mode(), vk.Hex(tl), vk.List(vl), vk.List(es),
-			resTerm(res.export, fmt.Sprintf("(%s, %s)", vk.Bool(res.expTrunc), vk.List(vs)))),
-			js, "ExportTx/"+fam+"/"+res.export.class(), true)
-	}
-	if img.cfg.compression == 0 {
-		for i := range res.vals {
-			v := &res.vals[i]
-			if v.o.hung {
-				continue
-			}
-			js := base("val")
-			js["entry"] = i
-			js["go"] = v.o.class()
-			js["violation"] = img.valueViolation(t, i, v)
-			r.Case(img.valCase(txlog, vlogs, &v.e, v.o, v.val), js, "ReadValue/"+fam+"/"+v.o.class(), true)
 		}
 	}
 }
@@ -345,7 +348,7 @@ func Gen(r *vk.Run, n int) error {
 			return err
 		}
 		for i, j := range jobs {
-			img.emit(r, round, cfgIdx, j, results[i])
+			img.emit(r, round, cfgIdx, i, j, results[i])
 			ops += results[i].ops
 		}
 		njobs += len(jobs)
@@ -408,7 +411,7 @@ func Replay(r *vk.Run, c map[string]any) error {
 	if err != nil {
 		return err
 	}
-	img.emit(r, round, cfgIdx, j, res)
+	img.emit(r, round, cfgIdx, 0, j, res)
 	return nil
 }
 
